@@ -50,6 +50,10 @@ func main() {
 		os.Exit(3)
 	}
 	switch os.Getenv("ARC_VERIF_ROLE") {
+	case "config":
+		c := verifWALConfig()
+		b, _ := json.Marshal(map[string]interface{}{"recovery_batch_size": c.RecoveryBatchSize, "sync_mode": c.SyncMode})
+		os.Stdout.Write(append(b, '\n'))
 	case "dump":
 		verifDump(base, os.Stdout)
 	case "dumpserver":
@@ -187,7 +191,19 @@ func (p *verifWALProxy) releaseOne() (int, error) {
 	return len(fs), nil
 }
 
+// verifWALConfig returns the WAL settings exactly as arc resolves them (config.Load: defaults, no
+// arc.toml in the scenario directory), so that recovery runs with the real wal.recovery_batch_size.
+func verifWALConfig() config.WALConfig {
+	cfg, err := config.Load()
+	if err != nil || cfg == nil {
+		fmt.Fprintln(os.Stderr, "config.Load failed:", err)
+		os.Exit(3)
+	}
+	return cfg.WAL
+}
+
 func verifServe(base string) {
+	wcfg := verifWALConfig()
 	vio := &verifIO{in: bufio.NewReaderSize(os.Stdin, 1<<20), out: bufio.NewWriter(os.Stdout)}
 	lg := zerolog.New(os.Stderr).Level(zerolog.WarnLevel)
 	zerolog.SetGlobalLevel(zerolog.WarnLevel)
@@ -202,10 +218,10 @@ func verifServe(base string) {
 	// --- as in main(): writer first, then the buffer, then recovery ---
 	walWriter, err := wal.NewWriter(&wal.WriterConfig{
 		WALDir:       walDir,
-		SyncMode:     wal.SyncMode("fdatasync"),
-		MaxSizeBytes: 100 * 1024 * 1024,
-		MaxAge:       3600 * time.Second,
-		BufferSize:   10000,
+		SyncMode:     wal.SyncMode(wcfg.SyncMode),
+		MaxSizeBytes: int64(wcfg.MaxSizeMB) * 1024 * 1024,
+		MaxAge:       time.Duration(wcfg.MaxAgeSeconds) * time.Second,
+		BufferSize:   wcfg.BufferSize,
 		Logger:       lg,
 	})
 	if err != nil {
@@ -268,7 +284,7 @@ func verifServe(base string) {
 	startupActiveFile := walWriter.CurrentFile()
 	stats, rerr := walRecovery.RecoverWithOptions(context.Background(), wrappedRow, &wal.RecoveryOptions{
 		SkipActiveFile:   startupActiveFile,
-		BatchSize:        10000,
+		BatchSize:        wcfg.RecoveryBatchSize,
 		ColumnarCallback: wrappedCol,
 	})
 	rec := map[string]interface{}{"ev": "recovered", "callbacks": cbN, "cb_errors": cbErrs}
